@@ -19,6 +19,7 @@ import Golib.Udp.WFB
 import Golib.Udp.Gates
 import Golib.Udp.ProcessThm
 import Golib.Udp.Route
+import Golib.Udp.Restore
 
 namespace C07
 open Udp Udp.Layout Prim
@@ -120,6 +121,55 @@ theorem version_coverage (t : PackT) (v : Int) :
       (∀ x, write t.layout v x = write t.layout r x) ∧ (∀ st, read t.layout v st = read t.layout r st) ∧
       (∀ x st, post t.layout v x st = post t.layout r x st) ∧ carried t.layout v = carried t.layout r :=
   Layout.version_coverage t.layout v
+
+/-- a well-formed UdpTxEndPack at the newest Go version, into a cleared pack -/
+def exEnd : Rec := Rec.ofList
+  [("Txid", .int (-5)), ("Time", .int 1700000000000), ("Elapsed", .int 12), ("Cpu", .int 0), ("Mem", .int 7),
+   ("Pid", .int 4242), ("ThreadId", .int 9), ("Host", .str [104]), ("Uri", .str [47, 97]), ("Mtid", .int (-9000000000)),
+   ("Mdepth", .int 3), ("McallerTxid", .int 0), ("McallerPcode", .int 12345), ("McallerSpec", .str []),
+   ("McallerUrl", .str [49]), ("McallerPoidKey", .str []), ("Status", .int 404), ("McallerStepId", .int (-1)),
+   ("XTraceId", .str [120])] (fun _ => .null)
+
+/-- every carried field's last assignment is a transfer, at the representative versions of every type -/
+theorem reps_carried : ∀ t ∈ allPacks, ∀ r ∈ versionReps t.layout, carriedAreTransfers t.layout r = true := by decide
+
+theorem no_setJoin : ∀ t ∈ allPacks, t.name = "UdpActiveStatsPack" ∨ noSetJoin t.layout = true := by decide
+
+/-- **every carried field is restored** — the clause itself, field by field: for every pack type (other than
+    UdpActiveStatsPack, whose wire field is the joined text: `process_active_stats`), every version, every
+    well-formed pack `x` and every receiving pack, each field the wire carries at that version holds after the
+    read exactly `carry c (x f)`: the written value, or its first `cap` bytes where the writer caps it
+    (`caps_documented_partial` lists the caps); the relay payload holds the written bytes -/
+theorem udp_restores (t : PackT) (ht : t ∈ allPacks) (hn : t.name ≠ "UdpActiveStatsPack") (ver : Int) (x st : Rec)
+    (h : WF t.layout ver x st) :
+    ∀ f ∈ carried t.layout ver,
+      (∃ p c, lastOf t.layout ver f = some (.xfer p c) ∧ post t.layout ver x st f = carry c (x f)) ∨
+      (lastOf t.layout ver f = some .raw ∧ post t.layout ver x st f = .str (x f).asStr) := by
+  intro f hf
+  have hj : noSetJoin t.layout = true := by
+    rcases no_setJoin t ht with h' | h'
+    · exact absurd h' hn
+    · exact h'
+  have hall := carriedAreTransfers_all t.layout (reps_carried t ht) ver
+  unfold carriedAreTransfers at hall
+  rw [List.all_eq_true] at hall
+  have hfl := hall f hf
+  have hp := post_lastOf t.layout hj ver x st f
+  cases hl : lastOf t.layout ver f with
+  | none => rw [hl] at hfl; cases hfl
+  | some a =>
+    cases a with
+    | xfer p c =>
+      left
+      refine ⟨p, c, rfl, ?_⟩
+      rw [hp, hl]
+      exact carry_spec p c (x f) (WF_lastOf t.layout hj ver x st f p c h hl)
+    | const v => rw [hl] at hfl; cases hfl
+    | raw => right; exact ⟨rfl, by rw [hp, hl]; rfl⟩
+
+/-- non-vacuity: the example pack, field by field -/
+example : ∀ f ∈ carried UdpTxEndPack.layout 50101,
+    post UdpTxEndPack.layout 50101 exEnd UdpTxEndPack.clearedRec f = exEnd f := by decide
 
 /-- a strict prefix of what any writer produced is never accepted by its reader -/
 theorem udp_prefix_fails (t : PackT) (ver : Int) (x st : Rec) (q s : Bytes) (h : WF t.layout ver x st)
@@ -363,14 +413,6 @@ example : PlainTok (kwPassword, [115, 101, 99]) := by unfold PlainTok; decide
 example : Plain [226, 130, 172, 195, 169] := by decide
 /-- a value that starts with U+00A0 is not -/
 example : ¬ Plain [194, 160, 120] := by decide
-
-/-- a well-formed UdpTxEndPack at the newest Go version, into a cleared pack -/
-def exEnd : Rec := Rec.ofList
-  [("Txid", .int (-5)), ("Time", .int 1700000000000), ("Elapsed", .int 12), ("Cpu", .int 0), ("Mem", .int 7),
-   ("Pid", .int 4242), ("ThreadId", .int 9), ("Host", .str [104]), ("Uri", .str [47, 97]), ("Mtid", .int (-9000000000)),
-   ("Mdepth", .int 3), ("McallerTxid", .int 0), ("McallerPcode", .int 12345), ("McallerSpec", .str []),
-   ("McallerUrl", .str [49]), ("McallerPoidKey", .str []), ("Status", .int 404), ("McallerStepId", .int (-1)),
-   ("XTraceId", .str [120])] (fun _ => .null)
 
 example : WF UdpTxEndPack.layout 50101 exEnd UdpTxEndPack.clearedRec :=
   WF_of_wfB _ _ _ _ (by decide)
